@@ -23,7 +23,7 @@ pub fn random_par(rng: &mut Rng) -> String {
     if rng.chance(1, 4) { s.push_str("%auto_newline_off\n"); }
     if rng.chance(1, 3) { s.push_str("%allow_unmatched\n"); }
     let states = rng.chance(1, 2);
-    let how = rng.below(3);
+    let how = [0usize, 1, 2, 2][rng.below(4)];
     if states {
         s.push_str(match how { 0 => "%on Q %enter Str\n", 1 => "%on Q %push Str\n", _ => "%on Q %push Str\n" });
         s.push_str("%scanner Str {\n    %auto_newline_off\n    %auto_ws_off\n");
@@ -57,7 +57,9 @@ pub fn random_par(rng: &mut Rng) -> String {
 
 fn random_text(rng: &mut Rng) -> String {
     let atoms = ["if", "i", "f", "a", "b", "ab", "abc", "fi", "iif", "0", "12", "3.4", ".", "=", "==", "===", "+", "++", "+++", "<", "<-", "-", " ", "  ", "\n", "\r\n",
-                 "\"", "(", ")", "(*", "*)", "//x", "#", "é", "z9", "a1", "ba"];
+                 "\"", "(", ")", "(*", "*)", "//x", "#", "é", "z9", "a1", "ba",
+                 // nested pushes of a state into itself and their pops
+                 "\"((", "\"(", "\"\"", "((", "\"\"\""];
     let n = rng.range(0, 14);
     (0..n).map(|_| atoms[rng.below(atoms.len())]).collect::<Vec<_>>().join("")
 }
